@@ -53,6 +53,7 @@ func C14(c *Ctx) {
 
 func C13(c *Ctx) {
 	R1IndexSentinel(c)
+	R1DownScanFirst(c)
 	R14Config(c)
 	R15ConfigOrder(c)
 	R15EnumFam(c)
@@ -99,6 +100,7 @@ func C04(c *Ctx) {
 
 func C16(c *Ctx) {
 	R1IndexSentinel(c)
+	R1DownScanFirst(c)
 	R12Registry(c)
 	R12NameOfKind(c)
 	R12RemoveWrites(c)
@@ -131,7 +133,9 @@ func C16(c *Ctx) {
 }
 
 func C12(c *Ctx) {
+	R11ResponseHeaders(c)
 	R1IndexSentinel(c)
+	R1DownScanFirst(c)
 	R11HTTPProfile(c)
 	R11RedirProvenance(c)
 	R11NoCarry(c)
@@ -141,17 +145,20 @@ func C12(c *Ctx) {
 
 func C11(c *Ctx) {
 	R1IndexSentinel(c)
+	R1DownScanFirst(c)
 	R13EventLog(c)
 	R13Deadline(c)
 	R13Regenerated(c)
 	R3LockPair(c, func(fn, lock string) bool {
 		return strings.Contains(lock, "Mutex") && (strings.Contains(fn, "server.") || strings.Contains(fn, "service."))
 	}, 3)
-	r10FanOut(c, "R10-authgate")
+	// an unauthenticated connection must not be able to take an operator session out of the fan-out
+	R10AuthGate(c)
 }
 
 func C01(c *Ctx) {
 	R1IndexSentinel(c)
+	R1DownScanFirst(c)
 	scope := c.ScopeFrom(c.AgentFacingRoots())
 	R1Bounds(c, scope, "", 100)
 	R1PivotJobShape(c)
@@ -194,6 +201,8 @@ func C03(c *Ctx) {
 
 func C10(c *Ctx) {
 	R9SQLSchema(c)
+	R9PersistAfterMark(c)
+	R9DBAnswers(c)
 	R9DBShape(c)
 	R12Registry(c)
 	R9ScanWidth(c)
@@ -203,6 +212,7 @@ func C10(c *Ctx) {
 }
 
 func C02(c *Ctx) {
+	R8PackerBuffer(c)
 	R8Exhaustive(c)
 	R8Sibling(c)
 	R8ByteOrder(c)
@@ -218,6 +228,8 @@ func C02(c *Ctx) {
 }
 
 func C08(c *Ctx) {
+	R9UnlinkTarget(c)
+	R8PackerBuffer(c)
 	R2DecryptOnce(c)
 	R8IDWidth(c)
 	R4PivotQueue(c)
@@ -234,6 +246,7 @@ func C05(c *Ctx) {
 	R6AcceptList(c)
 	R6Issue(c)
 	R6Completion(c)
+	R6DeferredCapture(c)
 }
 
 // Gen prints a derived table for review.
@@ -284,15 +297,20 @@ func C06(c *Ctx) {
 func C07(c *Ctx) {
 	R7PathContain(c)
 	R7FileID(c)
+	R7FileIDDecode(c)
 	R7LootHandle(c)
 }
 
 func C09(c *Ctx) {
 	R1IndexSentinel(c)
+	R1DownScanFirst(c)
+	R9DBAnswers(c)
 	R9DBShape(c)
 	R9Pivot(c)
 	R9CycleGuard(c)
 	R9MoveUnlinks(c)
+	R9ParentAfterUnlink(c)
+	R9UnlinkTarget(c)
 	R5RangeMut(c, func(fn string) bool {
 		return strings.Contains(fn, "UnlinkFromAll") || strings.Contains(fn, "LinkRemove") || strings.Contains(fn, "TaskDispatch") || strings.Contains(fn, "Died")
 	}, 3)
